@@ -473,6 +473,125 @@ func wideSpace(tier string) mck.Space {
 	}}
 }
 
+// two: a reader's answers depend only on its own buffer and the operations applied to IT - not on other readers
+// that exist at the same time (every worker of the collector has one, and a decoder creates one per datagram).
+// Two readers A and B over different buffers; B is created before step t (t = 0..D); every sequence of D steps
+// (which reader, which operation); after each step the reader operated on is checked as everywhere else AND the
+// other one must still report its own length and count.
+func twoSpace(tier string) mck.Space {
+	bufs := mkBuffers()
+	D := 3
+	type root struct{ a, t, who1, o1 int }
+	var roots []root
+	for ai, b := range bufs {
+		for t := 0; t <= D; t++ {
+			for who := 0; who < 2; who++ {
+				for i := range opsFor(len(b.data)) {
+					roots = append(roots, root{ai, t, who, i})
+				}
+			}
+		}
+	}
+	return mck.FuncSpace{N: uint64(len(roots)), F: func(idx uint64, c *mck.Ctx) {
+		rt := roots[idx]
+		ba, bb := bufs[rt.a], bufs[(rt.a+7)%len(bufs)]
+		if tier != "thorough" && rt.a%3 != 0 && len(ba.data) != 9 {
+			c.Skip() // quick: every third first buffer and the longest ones
+			return
+		}
+		opsA, opsB := opsFor(len(ba.data)), opsFor(len(bb.data))
+		nops := len(opsA)
+		if len(opsB) < nops {
+			nops = len(opsB)
+		}
+		if rt.o1 >= nops || (rt.who1 == 1 && rt.t > 0) {
+			c.Skip() // B cannot be operated on before it exists
+			return
+		}
+		who := make([]int, D)
+		sel := make([]int, D)
+		who[0], sel[0] = rt.who1, rt.o1
+		var n uint64
+		stop := false
+		run := func() {
+			workA, workB := workCopy(ba.data), workCopy(bb.data)
+			rA := reader.NewReader(workA)
+			mA, mB := &ref{buf: ba.data}, &ref{buf: bb.data}
+			var rB *reader.Reader
+			fail := func(k int, sig, msg string) {
+				var p []string
+				for j := 0; j < k; j++ {
+					p = append(p, fmt.Sprintf("%c.%s", 'A'+who[j], map[int][]op{0: opsA, 1: opsB}[who[j]][sel[j]]))
+				}
+				c.Violation("two:"+sig, msg, map[string]interface{}{"buffer_A": fmt.Sprintf("% x", ba.data), "buffer_B": fmt.Sprintf("% x", bb.data), "B_created_before_step": rt.t, "path": p})
+				stop = true
+			}
+			for k := 0; k < D; k++ {
+				if k == rt.t {
+					rB = reader.NewReader(workB)
+				}
+				if who[k] == 1 && rB == nil {
+					return // not a sequence of this space
+				}
+				var sig, msg string
+				if who[k] == 0 {
+					sig, msg = step(rA, mA, workA, ba.data, opsA[sel[k]])
+				} else {
+					sig, msg = step(rB, mB, workB, bb.data, opsB[sel[k]])
+				}
+				if sig != "" {
+					fail(k, sig, msg)
+					return
+				}
+				if rA.Len() != len(ba.data)-mA.pos || rA.ReadCount() != mA.pos {
+					fail(k+1, "reader:other-reader-disturbed", fmt.Sprintf("after step %d reader A reports Len()=%d ReadCount()=%d, its own history says %d / %d", k, rA.Len(), rA.ReadCount(), len(ba.data)-mA.pos, mA.pos))
+					return
+				}
+				if rB != nil && (rB.Len() != len(bb.data)-mB.pos || rB.ReadCount() != mB.pos) {
+					fail(k+1, "reader:other-reader-disturbed", fmt.Sprintf("after step %d reader B reports Len()=%d ReadCount()=%d, its own history says %d / %d", k, rB.Len(), rB.ReadCount(), len(bb.data)-mB.pos, mB.pos))
+					return
+				}
+			}
+			if rt.t == D { // B created after the last step: A must not notice
+				rB = reader.NewReader(workB)
+				if rA.Len() != len(ba.data)-mA.pos || rA.ReadCount() != mA.pos || rB.Len() != len(bb.data) || rB.ReadCount() != 0 {
+					fail(D, "reader:other-reader-disturbed", "creating reader B after A's last operation changed what A (or B) reports")
+					return
+				}
+			}
+			n++
+		}
+		var rec func(d int)
+		rec = func(d int) {
+			if stop {
+				return
+			}
+			if d == D {
+				run()
+				return
+			}
+			for w := 0; w < 2; w++ {
+				for i := 0; i < nops; i++ {
+					who[d], sel[d] = w, i
+					rec(d + 1)
+				}
+			}
+		}
+		rec(1)
+		c.Transitions(n * uint64(D))
+		c.Count("sequences", n)
+		if n > 0 {
+			c.Nontrivial(mck.Hash64([]byte(fmt.Sprint(rt))))
+		}
+		c.Depth(uint64(D))
+		if idx%211 == 0 {
+			c.Sample(func() interface{} {
+				return map[string]interface{}{"buffer_A": fmt.Sprintf("% x", ba.data), "buffer_B": fmt.Sprintf("% x", bb.data), "B_created_before_step": rt.t, "then": fmt.Sprintf("all %d-step continuations over 2 readers x %d ops", D-1, nops)}
+			})
+		}
+	}}
+}
+
 func main() {
-	mck.Main(map[string]func(string) mck.Space{"bfs": bfsSpace, "seq": seqSpace, "wide": wideSpace})
+	mck.Main(map[string]func(string) mck.Space{"bfs": bfsSpace, "seq": seqSpace, "wide": wideSpace, "two": twoSpace})
 }
